@@ -529,6 +529,50 @@ def gen_undecodable(rng, cat, R, M, per_file):
     return cases
 
 
+def gen_header_fields(rng, cat, R, M):
+    """every header field the acceptance test does NOT constrain is varied on otherwise valid messages: reserved bytes
+    non-zero (one byte each, both), protocol_version != 2, message_version != the class version, sequence numbers going
+    backwards / 2^32-1 / repeated, every kind of source_identifier.  Such messages are indexed like any other."""
+    pool = [c for c in cat if len(c[2]) + 24 <= M]
+    variants = []
+    for v in (0x0001, 0x0100, 0x00FF, 0xFF00, 0xFFFF, 0x8000):
+        variants.append({'reserved': v})
+    for v in (0, 1, 3, 127, 255):
+        variants.append({'proto': v})
+    for v in (0xFFFFFFFF, 0xFFFFFFFE, 5, 4, 4, 0, 0x80000000):
+        variants.append({'seq': v})
+    for v in (0, 1, 0x7FFFFFFF, 0xFFFFFFFE, 0xFFFFFFFF):
+        variants.append({'src': v})
+    variants.append({'reserved': 0xFFFF, 'proto': 0, 'seq': 0xFFFFFFFF, 'src': 0})
+    msgs = []
+    for j, var in enumerate(variants):
+        for c in (pool[j % len(pool)], pool[(3 * j + 1) % len(pool)]):
+            d = {'type': c[0], 'ver': c[1], 'payload': [['h', stamp_payload(c, 100 + j, 0).hex()]]}
+            d.update(var)
+            msgs.append(['m', d])
+    for j, c in enumerate(pool):                       # message_version other than the class version, every class
+        for ver in {(c[1] + 1) % 256, 255, 0} - {c[1]}:
+            msgs.append(['m', {'type': c[0], 'ver': ver, 'payload': [['h', c[2].hex()]], 'seq': j}])
+    rng.shuffle(msgs)
+    cases = []
+    per = 40
+    for n in range(0, len(msgs), per):
+        chunk = msgs[n:n + per]
+        lead = rng.randrange(0, 40) if (n // per) % 2 == 0 else max(0, R - rng.randrange(0, min(R, 30 * per)))
+        segs = [['z', lead, 0]]
+        for k, m in enumerate(chunk):
+            segs.append(m)
+            if k % 5 == 4:
+                segs.append(['z', rng.randrange(0, 9), rng.choice([0, 0x2E])])
+        cases.append({'kind': 'header-fields', 'recipe': segs})
+    # the first and the last message of a file, and a message starting one byte before a block boundary
+    for var in ({'reserved': 1}, {'reserved': 0xFFFF}, {'proto': 0}, {'src': 0}):
+        a = dict({'type': 13000, 'payload': [['z', 8, 0]]}, **var)
+        cases.append({'kind': 'header-fields', 'recipe': [['m', a], ['z', 5, 0], ['m', dict(a, seq=7)]]})
+        cases.append({'kind': 'header-fields', 'recipe': [['z', R - 1, 0], ['m', a], ['z', 30, 0]]})
+    return cases
+
+
 def gen_edge_types(rng, cat, R, M):
     """files whose last / first / only accepted message has type 0 (MessageType.INVALID, which FileIndex also uses as its
     end-of-file marker), an unregistered type, or a registered type without P1 time — with and without trailing junk,
@@ -624,6 +668,7 @@ def gen_small_exhaustive(rng, cat, quick):
     cases += [dict(c, kind='small:' + c['kind']) for c in gen_overlap(rng, cat, R, M, 60 if quick else 1500)]
     cases += [dict(c, kind='small:' + c['kind']) for c in gen_nested(rng, cat, R, M, 60 if quick else 600)]
     cases += [dict(c, kind='small:' + c['kind']) for c in gen_edge_types(rng, cat, R, M)]
+    cases += [dict(c, kind='small:' + c['kind']) for c in gen_header_fields(rng, cat, R, M)]
     cases += [dict(c, kind='small:' + c['kind']) for c in gen_undecodable(rng, cat, R, M, 60)]
     cases += [dict(c, kind='small:' + c['kind']) for c in gen_periodic(rng, cat, R, M, quick)]
     cases += [dict(c, kind='small:' + c['kind']) for c in gen_tails(rng, cat, R, M)]
@@ -715,9 +760,18 @@ def evaluate(ctx, case, res, mdl, report=True):
     return viols, corr
 
 
-def shrink(ctx, exe, case, sig, legacy_view):
-    """replace segments by same-length zero fill / drop trailing segments while the same signature reproduces"""
+SHRINK_DEADLINE = [0.0]      # absolute time after which no further shrinking is attempted in this run
+
+
+def shrink(ctx, exe, case, sig, legacy_view, per_sig=40.0):
+    """delta-debugging on the recipe: replace runs of segments (halves, quarters, ... single segments) by zero fill of
+    the same length while the same signature reproduces.  Bounded in time: per signature and per run."""
+    import time
+    t_end = min(time.time() + per_sig, SHRINK_DEADLINE[0])
+
     def still(rec):
+        if time.time() > t_end:
+            return False
         c = dict(case, recipe=rec, legacy_view=legacy_view, id=0)
         try:
             r = run_impl(ctx, [c], 1)[0]
@@ -725,32 +779,40 @@ def shrink(ctx, exe, case, sig, legacy_view):
         except Exception:
             return False
         vs, _ = evaluate(ctx, c, r, m)
-        return any(s == sig for s, _ in vs)
+        return any(s_ == sig for s_, _ in vs)
+
+    def zero(rec, i, j):
+        n = sum(F.seg_len(x) for x in rec[i:j])
+        return rec[:i] + ([['z', n, 0]] if n else []) + rec[j:]
+
+    def is_zero(x):
+        return x[0] == 'z' and (len(x) < 3 or x[2] == 0)
     rec = list(case['recipe'])
-    budget = 40
-    changed = True
-    while changed and budget > 0:
-        changed = False
-        for i in range(len(rec) - 1, -1, -1):
-            if budget <= 0:
-                break
-            s = rec[i]
-            if s[0] == 'z' and (len(s) < 3 or s[2] == 0):
+    chunk = max(1, len(rec) // 2)
+    while chunk >= 1 and time.time() < t_end:
+        i, changed = 0, False
+        while i < len(rec) and time.time() < t_end:
+            j = min(len(rec), i + chunk)
+            if all(is_zero(x) for x in rec[i:j]):
+                i = j
                 continue
-            n = F.seg_len(s)
-            trial = rec[:i] + ([['z', n, 0]] if n else []) + rec[i + 1:]
-            budget -= 1
+            trial = zero(rec, i, j)
             if still(trial):
-                rec = trial
-                changed = True
+                rec, changed = trial, True
+                i += 1
+            else:
+                i = j
+        if chunk == 1 and not changed:
+            break
+        chunk = chunk // 2 if chunk > 1 else (1 if changed else 0)
     # merge adjacent zero fills
     out = []
-    for s in rec:
-        if out and s[0] == 'z' and out[-1][0] == 'z' and (s[2] if len(s) > 2 else 0) == (out[-1][2] if len(out[-1]) > 2 else 0):
-            out[-1] = ['z', out[-1][1] + s[1], out[-1][2] if len(out[-1]) > 2 else 0]
+    for x in rec:
+        if out and is_zero(x) and is_zero(out[-1]):
+            out[-1] = ['z', out[-1][1] + x[1], 0]
         else:
-            out.append(list(s))
-    return out if still(out) else rec
+            out.append(list(x))
+    return out
 
 
 def _read_generated(name, keys):
@@ -815,6 +877,7 @@ def run(ctx):
     real += gen_stamps(rng, cat)
     real += gen_short_payload(rng, cat)
     real += gen_edge_types(rng, cat, R, M)
+    real += gen_header_fields(rng, cat, R, M)
     real += gen_undecodable(rng, cat, R, M, 120)
     real += gen_periodic(rng, cat, R, M, quick) if not quick else gen_periodic(rng, cat, R, M, quick)[::2]
     real += gen_trunc(rng, cat, R, M)
@@ -837,7 +900,7 @@ def run(ctx):
         # every public way to obtain the index (saved, loaded, through MixedLogReader): all edge-type / corpus / tiny /
         # stamp / tail / truncation / undecodable-payload files, every third other real-constant and every eighth small-constant file
         k0 = c['kind'].split(':')[0]
-        if 'edge-type' in c['kind'] or k0 in ('corpus', 'stamp', 'short-payload', 'trunc-eof', 'undecodable') or c['kind'] == 'tail:last-bytes' or (k0 in ('tiny', 'tail') and i % 2 == 0) \
+        if 'edge-type' in c['kind'] or k0 in ('corpus', 'stamp', 'short-payload', 'trunc-eof', 'undecodable', 'header-fields') or c['kind'] == 'tail:last-bytes' or (k0 in ('tiny', 'tail') and i % 2 == 0) \
                 or (not c.get('consts') and i % (4 if quick else 2) == 0) or (c.get('consts') and i % (12 if quick else 4) == 0):
             c['paths'] = [1, 3]
         c['real_consts'] = [R, M]
@@ -863,6 +926,8 @@ def run(ctx):
     ctx.count('history:files-kept-and-rechecked', nkept)
     if nkept == 0:
         raise RuntimeError('c08: no in-process history was checked')
+    import time as _time
+    SHRINK_DEADLINE[0] = _time.time() + 120.0
     seen_sig = set()
     first_corr = None
     for c, r, m in zip(cases, res, mdl):
@@ -901,7 +966,7 @@ def run(ctx):
         'and no call may raise. MAIN run, real constants READ=%d MAX=%d: files of 1-6 blocks with messages / sync words whose start or end is at '
         'k*READ+d and k*READ+MAX+d for d in [-25,25] (%s), tails 0..MAX+25 and READ-1 after 0-2 blocks, 0..29-byte files, messages cut by EOF, period-READ repetition (a block-sized chunk repeated, the file ending in a copy cut inside a message whose missing bytes sit exactly READ earlier; straddling messages whose continuation differs per period), '
         'CRC-of-truncated-slice headers at EOF and at the end of a read buffer, wrappers with nested messages across boundaries, the #15 overlap '
-        'construct, stamps around 2^32 s and rounding, files whose only / first / last accepted message has type 0 (MessageType.INVALID, also the end-of-file marker of FileIndex), an unregistered type or no P1 time, with and without trailing junk, for EVERY registered message type CRC-valid messages with empty / too short / garbage payloads (struct-based, construct-based and non-packable classes) in ordinary positions and across block boundaries, messages > MAX and > 65535 B, random mixes of all %d '
+        'construct, stamps around 2^32 s and rounding, files whose only / first / last accepted message has type 0 (MessageType.INVALID, also the end-of-file marker of FileIndex), an unregistered type or no P1 time, with and without trailing junk, for EVERY registered message type CRC-valid messages with empty / too short / garbage payloads (struct-based, construct-based and non-packable classes) in ordinary positions and across block boundaries, messages > MAX and > 65535 B, otherwise valid messages with every unconstrained header field varied (reserved bytes non-zero, protocol_version != 2, message_version != class version, sequence numbers backwards / 2^32-1, all kinds of source_identifier), random mixes of all %d '
         'packable classes with junk, false syncs, corrupt CRCs, non-zero reserved bytes. SUPPORTING run (module constants patched to READ=64, MAX=48 '
         'in the harness process; workers are forked so they inherit them — checked): one message of size 24/25/40/48 at every offset of files around '
         'every block and overlap boundary (%s), random multi-message files, the same overlap/nested/tail/truncation/boundary families. '
